@@ -52,6 +52,13 @@ pub const CLASSES: [(&str, &str); 32] = [
 /// the 16-class core used for length-4 sequences in the quick tier
 pub const CORE: [usize; 16] = [0, 1, 4, 6, 8, 9, 11, 12, 13, 17, 18, 19, 20, 21, 22, 23];
 
+/// reduced alphabets for longer sequences (small-scope tiers): brackets of all three kinds, side-effect blocks, one
+/// prefix / suffix / infix operator, the comma and the blank-line separator - the tokens whose handling in the parser
+/// carries state from one token to the next (group stack, pending side-effect block, optional right operand)
+pub const DEEP10: [usize; 10] = [0, 6, 8, 9, 11, 17, 18, 21, 22, 23];
+pub const DEEP8: [usize; 8] = [0, 6, 9, 11, 17, 18, 21, 22];
+pub const DEEP12: [usize; 12] = [0, 6, 8, 9, 11, 17, 18, 19, 20, 21, 22, 23];
+
 pub const ALPHABET: [&str; 41] = [
     "1", "a", "_", ":", ".", " ", "\t", "\n", "\r", "\"", "'", "\\", "@", "`", "$", "?", "!", "~", "<", ">", "=", "+", "-", "|", "&", "^", "#", "%", "*", "/", "(", ")", "{",
     "}", "[", "]", ",", ";", "é", "§", "😀",
@@ -89,6 +96,9 @@ fn segs(tier: Tier, with_programs: bool) -> Vec<Seg> {
         Seg { name: "k2-len3", count: a * a * a },
         Seg { name: "k2-len4", count: tier.pick(0, a * a * a * a) },
         Seg { name: "k3-scale", count: (families().len() * SCALES.len()) as u64 },
+        Seg { name: "k4-len5", count: tier.pick(pow(10, 5) * 16, pow(12, 5) * 16) },
+        Seg { name: "k4-len6", count: tier.pick(pow(8, 6) * 32, pow(10, 6) * 32) },
+        Seg { name: "k4-len7", count: tier.pick(0, pow(8, 7) * 64) },
     ];
     if with_programs {
         let s = spaces(tier);
@@ -232,6 +242,18 @@ pub fn item(tier: Tier, with_programs: bool, mut idx: u64) -> Item {
             }
             "k1-len4" => {
                 let (t, d) = if tier == Tier::Quick { k1_text(4, idx, &CORE) } else { k1_text(4, idx, &all) };
+                Item::Text(t, d)
+            }
+            "k4-len5" => {
+                let (t, d) = if tier == Tier::Quick { k1_text(5, idx, &DEEP10) } else { k1_text(5, idx, &DEEP12) };
+                Item::Text(t, d)
+            }
+            "k4-len6" => {
+                let (t, d) = if tier == Tier::Quick { k1_text(6, idx, &DEEP8) } else { k1_text(6, idx, &DEEP10) };
+                Item::Text(t, d)
+            }
+            "k4-len7" => {
+                let (t, d) = k1_text(7, idx, &DEEP8);
                 Item::Text(t, d)
             }
             "k2-len1" => Item::Text(k2_text(1, idx), "chars".into()),
@@ -861,7 +883,7 @@ impl Property for C03 {
     }
     fn meta(&self, tier: Tier) -> Meta {
         Meta {
-            rule: format!("K1: every sequence of 32 token classes (one representative spelling each: values, prefix/suffix/binary operators, brackets, separators, apply-by-identifier forms, annotations) of length <= 3 with every choice of 'nothing or one space' between neighbours, length 4 over {}; K2: every string over a 41-symbol alphabet (one per lexer character class plus 2-, 2- and 4-byte characters) of length <= {}; K3: 40 scaling families at 64..1024 repetitions. Each input goes through lex, parse, a structural tree check, then build into SimpleGarnishData and BasicGarnishData. Verdict: no stage panics, aborts, overflows the stack or exceeds its wall budget (supervisor-confirmed), parse never returns a result whose child links contain a cycle (build would not terminate on it - such a result is not handed to build; results with orphan, shared or out-of-range children are built under the panic guard), K3 time <= 50 ms + 3 us * n^2. Non-trivial = input that gets past lex; distinct by text.", tier.pick("a 16-class core", "all 32 classes"), tier.pick(3, 4)),
+            rule: format!("K1: every sequence of 32 token classes (one representative spelling each: values, prefix/suffix/binary operators, brackets, separators, apply-by-identifier forms, annotations) of length <= 3 with every choice of 'nothing or one space' between neighbours, length 4 over {}; K2: every string over a 41-symbol alphabet (one per lexer character class plus 2-, 2- and 4-byte characters) of length <= {}; K3: 40 scaling families at 64..1024 repetitions; K4 (small-scope tiers, every spacing choice as in K1): length 5 over {} classes, length 6 over {} classes{} drawn from number, prefix, suffix and infix operator, comma, blank line and the three bracket kinds. Each input goes through lex, parse, a structural tree check, then build into SimpleGarnishData and BasicGarnishData. Verdict: no stage panics, aborts, overflows the stack or exceeds its wall budget (supervisor-confirmed), parse never returns a result whose child links contain a cycle (build would not terminate on it - such a result is not handed to build; results with orphan, shared or out-of-range children are built under the panic guard), K3 time <= 50 ms + 3 us * n^2. Non-trivial = input that gets past lex; distinct by text.", tier.pick("a 16-class core", "all 32 classes"), tier.pick(3, 4), tier.pick(10, 12), tier.pick(8, 10), tier.pick("", ", length 7 over 8 classes,")),
             assumptions: vec![
                 "a parse result whose child links contain a cycle is reported as a totality violation without executing build on it (build follows child links with a work stack and cannot terminate on a cycle)".into(),
                 "the polynomial-time clause is checked only as a blunt quadratic wall-clock bound on 40 repeat families; a change of exponent below that is not detected".into(),
